@@ -152,6 +152,7 @@ def add_constraint(v, w, y):
 @inited
 def prove():
     try:
+        qape.flush() # qapsplit reads the equation file back: everything traced so far has to be in it
         qaplens,blklen,extlen,sigs = qapsplit.qapsplit()
 
         #print("qaplens", qaplens, "blklen", blklen, "extlen", extlen, "sigs", sigs)
